@@ -285,6 +285,29 @@ def r5_eq_hash(ctx):
     uncond = {f for f, (n, lits, asym) in compared.items() if not lits}
     ctx.check(used <= uncond and bool(used), hs, hs.node, "__hash__ uses only fields that __eq__ compares unconditionally", f"hash over {sorted(used)}",
               f"__hash__ uses {sorted(used)} but only {sorted(uncond)} are compared unconditionally: equal ballots could hash differently")
+    # ... and reads unordered (dict / set valued) fields only through an order-free view: __eq__ compares them as
+    # mappings / sets, so hashing tuple(d.items()) or list(s) makes equal ballots hash by insertion order
+    unordered = set()
+    for st in cls.node.body:
+        if isinstance(st, ast.AnnAssign) and isinstance(st.target, ast.Name) and re.search(r"\b(dict|Dict|set|Set|Mapping)\b", astx.u(st.annotation)):
+            unordered.add(st.target.id)
+    hpm = astx.parents(hs.node)
+    bad = []
+    for n in astx.walk_own(hs.node):
+        if isinstance(n, ast.Attribute) and astx.is_name(n.value, "self") and n.attr in unordered and isinstance(n.ctx, ast.Load):
+            cur, free = n, False
+            while cur in hpm and not isinstance(cur, ast.stmt):
+                cur = hpm[cur]
+                if isinstance(cur, ast.Call) and astx.u(cur.func) in ("frozenset", "sorted", "len", "bool", "sum"):
+                    free = True
+                    break
+                if isinstance(cur, (ast.If, ast.IfExp)) and any(x is n for x in ast.walk(cur.test)):
+                    free = True  # only its truthiness is consulted here
+                    break
+            if not free:
+                bad.append(n)
+    ctx.check(not bad, hs, bad[0] if bad else hs.node, "__hash__ reads dict/set-valued fields only through frozenset(...)/sorted(...)", f"unordered fields: {sorted(unordered)}",
+              f"`{astx.u(astx.stmt_of(bad[0], hpm))[:90] if bad else ''}`: `self.{bad[0].attr if bad else ''}` is hashed in its insertion order, but __eq__ ignores that order")
     rets = [n for n in astx.walk_own(eq.node) if isinstance(n, ast.Return)]
     ctx.check(any(astx.is_const(r.value, True) for r in rets) and f"not truthy(isinstance({other}, Ballot))" in
               {x for r in rets if astx.is_const(r.value, False) for x in literals(N.conj(astx.path_condition(eq.node, r, pm)))}, eq, eq.node,
@@ -411,7 +434,7 @@ RULES = [
     ("C11.R1", r1_frozen, 10, "frozen declarations; object.__setattr__ only in PreferenceProfile after-validators; no other field stores"),
     ("C11.R2", r2_validators, 8, "weight/scores before-validators convert to Fraction(x).limit_denominator(); TypeError; zero scores dropped"),
     ("C11.R3", r3_derived, 8, "num_ballots / total_ballot_wt / candidates_cast / default candidates formulas"),
-    ("C11.R5", r5_eq_hash, 6, "eq/hash contract of Ballot for the fields that dict-key ballots carry"),
+    ("C11.R5", r5_eq_hash, 7, "eq/hash contract of Ballot for the fields that dict-key ballots carry"),
     ("C11.R7", r7_dict_views, 3, "to_ballot_dict / to_ranking_dict / to_scores_dict accumulate each ballot's weight under its content key"),
     ("C11.R6", r6_condense_add, 8, "condense key/accumulate/rebuild; __add__ concatenation; profile equality"),
 ]
@@ -420,6 +443,7 @@ BL = "src/votekit/ballot.py"
 PP = "src/votekit/pref_profile.py"
 UT = "src/votekit/utils.py"
 FAULTS = [
+    ("hash over scores in insertion order (seeded C11-r2-3)", [(BL, "        return hash(self.ranking)\n", "        return hash((self.ranking, tuple(self.scores.items()) if self.scores else None))\n")], "C11.R5"),
     ("ballot not frozen", [(BL, "@dataclass(frozen=True, config=ConfigDict(arbitrary_types_allowed=True))", "@dataclass(config=ConfigDict(arbitrary_types_allowed=True))")], "C11.R1"),
     ("setattr on a ballot in utils", [(UT, "    if isinstance(removed, str):\n        removed = [removed]\n", "    if isinstance(removed, str):\n        removed = [removed]\n    if isinstance(profile_or_ballots, Ballot):\n        object.__setattr__(profile_or_ballots, \"id\", None)\n")], "C11.R1"),
     ("weight bound 1000", [(BL, "weight = Fraction(weight).limit_denominator()", "weight = Fraction(weight).limit_denominator(1000)")], "C11.R2"),
@@ -442,5 +466,6 @@ FAULTS += [
     ("scores dict skips unscored ballots", [(PP, "            else:\n                scores = tuple()\n            if standardize:", "            else:\n                continue\n            if standardize:")], "C11.R7"),
 ]
 BENIGN = [
+    ("hash over scores through a frozenset", [(BL, "        return hash(self.ranking)\n", "        return hash((self.ranking, frozenset(self.scores.items()) if self.scores else None))\n")]),
     ("scores compare flipped", [(BL, "        if self.scores != other.scores:\n            return False", "        if not (other.scores == self.scores):\n            return False")]),
 ]
